@@ -119,6 +119,11 @@ class Prop:
             for n in c.sample(NAMES, c.randint(1, 3)):
                 if not n.endswith("_"):
                     listener[n] = c.choice(POLICIES)
+        also = None
+        if listener and c.random() < 0.5:
+            # ... and the listener declares one MORE name (another one) the moment any of
+            # its names is resolved
+            also = [c.choice(["zzz", "abc", "fox", "f"]), c.choice(POLICIES)]
         ninst = c.randint(2, 4)
         insts = [c.choice(["base", "sub", "both", "both", "other"]) for _ in range(ninst)]
         nops = deep(c, [8, 16, 30, 60], [100, 150])
@@ -143,15 +148,25 @@ class Prop:
                     op["policy"] = "listint"
             elif x < 0.93:
                 op = {"k": "remove_trait", "o": o, "name": name}
+                if r.random() < 0.4:
+                    # a handler registered on the name (possibly its very first use)
+                    op = {"k": "watch", "o": o, "name": name}
+                    if listener and r.random() < 0.6:
+                        op["name"] = r.choice(sorted(listener))
                 if uname is not None and r.random() < 0.5:
                     # assign a list and mutate it in place
                     op = {"k": "mutate", "o": o, "name": uname}
             else:
                 op = {"k": "gc"}
             ops.append(op)
+        if listener and c.random() < 0.5:
+            # the very first thing that happens to an object: a handler is registered on
+            # a name that the listener declares when it is first resolved
+            ops.insert(0, {"k": "watch", "o": c.randrange(ninst),
+                           "name": c.choice(sorted(listener))})
         return {"prop": ID, "seed": seed,
                 "config": {"kind": kind, "base": base, "sub": sub, "other": other, "both": both,
-                           "insts": insts, "listener": listener},
+                           "insts": insts, "listener": listener, "also": also},
                 "ops": ops}
 
     # ------------------------------------------------------------------ world
@@ -170,9 +185,14 @@ class Prop:
         listener = cfg.get("listener") or {}
         base_ns = ns(cfg["base"])
         if listener:
+            also = cfg.get("also")
+
             def _trait_added_changed(self, name):
                 pol = listener.get(name)
                 if pol is not None and name not in self._instance_traits():
+                    if also and also[0] not in self._instance_traits() \
+                            and also[0] not in self.__dict__ and also[0] != name:
+                        self.add_trait(also[0], make_trait(also[1]))
                     self.add_trait(name, make_trait(pol))
             base_ns["_trait_added_changed"] = _trait_added_changed
         Base = type(T.HasTraits)("C13Base", (root,), base_ns)
@@ -275,15 +295,31 @@ class Prop:
                 env.token("restart")
                 continue
             name = op["name"]
-            if k in ("get", "set", "del") and name not in rec["itraits"] \
+            if k in ("get", "set", "del", "watch") and name not in rec["itraits"] \
                     and not any(name in layer["explicit"] for layer in self.layers(cfg, which)) \
                     and name not in resolved.setdefault(which, set()):
                 # first resolution of this name for this class: trait_added fires on this
                 # instance, and the listener may declare an instance trait right away
                 resolved[which].add(name)
                 if name in listener:
+                    also = cfg.get("also")
+                    if also and also[0] != name and also[0] not in rec["itraits"] \
+                            and also[0] not in o._instance_traits() \
+                            and also[0] not in o.__dict__:
+                        # ... and one more, under another name
+                        rec["itraits"][also[0]] = also[1]
+                        env.probe("declared-another-name-on-first-use")
                     rec["itraits"][name] = listener[name]
                     env.probe("declared-on-first-use")
+            if k == "watch":
+                # registering a handler (possibly the very first use of the name, and the
+                # object's first instance-trait operation): no value changes
+                _, e = sut(o.on_trait_change, lambda: None, name)
+                if e is not None:
+                    raise Violation("C13.watch", "on_trait_change(h, %r) raised %r" % (name, e), i)
+                env.end_op()
+                env.token("watch")
+                continue
             if name in rec["itraits"]:
                 pol, why = rec["itraits"][name], "instance trait"
             else:
